@@ -280,7 +280,18 @@ func diffCase(in caseInput, cfgs []config, o diffOpts) diffOut {
 				add(finding{Config: c, Class: "panic", Site: frameFunc(obs.Frame), Detail: obs.Panic + " at " + obs.Frame})
 				continue
 			case "budget":
-				add(finding{Config: c, Class: "budget", Site: tickSiteName(obs.Site), Detail: fmt.Sprintf("tick budget %d exhausted in the %s (tick site %d; reference executed %d instructions)", budget, tickSiteName(obs.Site), obs.Site, ref.Steps)})
+				var mech []string
+				if o.Lockstep && obs.Dropped == 0 {
+					// what did the machine do before it stopped making progress?
+					_, st, _ := buildDyn(c, obs.Log)
+					if st.SquashedRegWB > 0 && (c.V == "mvp6-0" || c.V == "mvp6-1") {
+						mech = append(mech, "wrong-path-regwrite")
+					}
+					if st.SquashedStores > 0 {
+						mech = append(mech, "wrong-path-store")
+					}
+				}
+				add(finding{Config: c, Class: "budget", Mech: mech, Site: tickSiteName(obs.Site), Detail: fmt.Sprintf("tick budget %d exhausted in the %s (tick site %d; reference executed %d instructions)", budget, tickSiteName(obs.Site), obs.Site, ref.Steps)})
 				continue
 			}
 			if o.ExpectErr {
